@@ -36,9 +36,12 @@ CLAIMS = {
             'JIT part is differential only; its frame-pointer defect is known finding D18. stack.rs is hand-modelled (Stack.v).'),
     'C08': ('proof', 'Theorems C08_helper_call / C08_other_registers / C08_unknown_helper on the ISA step (= regenerated interpreter step): exactly the '
             'registered function applied once to (r1..r5), result in r0, other registers, frames and memory unchanged; unknown id = error. '
-            'JIT and Cranelift are compared with the interpreter using instrumented helpers (argument mixer, call counter, caller-saved clobberer, '
+            'Theorem C08_jit_call_contract (over the instructions jit.rs emits around emit_call, regenerated): eBPF r1..r5 arrive in the System V argument registers, '
+            'an even number of words is pushed, the result is taken from rax, r6..r10 and the JIT\'s r10 come back for any helper that honours the ABI; '
+            'C08_compiled_call_key: both compilers key the helper by the unsigned immediate, refuse unregistered ids at compile time, Cranelift passes r1..r5 and defines r0. '
+            'The machine code itself: JIT and Cranelift are compared with the interpreter using instrumented helpers (argument mixer, call counter, caller-saved clobberer, '
             'stack-alignment probe) at call depth 0..3.',
-            'Compiled engines: differential only; Cranelift\'s machine ABI trusted.'),
+            'Compiled engines: call-site logic proved, machine code by differential execution; System V ABI and Cranelift\'s code generation trusted.'),
     'C09': ('proof', 'Theorems C09_entry_registers / C09_entry_values: the register initialisation regenerated from interpreter.rs equals the specified '
             'entry state (r1 = metadata buffer | packet | 0, r10 = stack top, others 0); ld_abs arms address the packet. All 4 VM kinds x 3 engines are '
             'probed against values derived from the buffer layout, incl. the two words of the fixed metadata buffer for 8 offset pairs, 6 packet lengths '
@@ -73,7 +76,8 @@ CLAIMS = {
             'conditional jumps the emitted cmp / test and condition code branch iff the ISA condition holds; theorems C03_memory_accesses_*: the 22 memory opcodes make the ISA '
             'access; theorem C03_muldiv_arms: for the 12 mul / div / mod opcodes the sequence built by emit_muldivmod (regenerated; sequence machine X86Seq.v with stack, '
             'flags, MUL / DIV with #DE, a lone REX.W prefix and the rel32 jump inside the sequence, instruction lengths = the proved encodings, C03_muldiv_bytes) ends with the ISA '
-            'value in the destination, rax / rdx / the stack restored, only rcx clobbered, and never faults. Searched, not proved: the other opcodes (calls, lddw, byte swaps, prologue) '
+            'value in the destination, rax / rdx / the stack restored, only rcx clobbered, and never faults; theorems C03_byte_swaps / C03_wide_load: le / be at 16, 32, 64 bits (and, mov, '
+            'rol16 + and, bswap) and lddw leave the ISA value in the destination and touch nothing else. Searched, not proved: exit, local calls, prologue / epilogue '
             'and the CPU itself, by executing compiled '
             'code in a child process against the interpreter on a corpus of ~8000 programs built to cover every opcode x every destination/source register pair x '
             'boundary immediates and displacements x control-flow shapes x program lengths above 65535 x 4 VM kinds (about 14000 runs), plus the C07 call graphs. '
